@@ -1,5 +1,6 @@
 import OdakProofs.Props.C09
 import OdakProofs.Props.C08
+import OdakProofs.Lemmas.GenHolograms
 import OdakModel.Hologram
 import OdakModel.Generated.CallSites
 import Mathlib.Analysis.SpecialFunctions.Trigonometric.Inverse
@@ -149,5 +150,107 @@ theorem C07_gen_quantized_phase_is_quantize (bits : Nat) (φ : ℝ) :
     quantizedPhaseT φ bits = quantizeT (Num.fmod φ (2 * Real.pi)) bits 0 (2 * Real.pi) / 2 ^ bits * 2 * Real.pi := by
   rw [quantizedPhaseT_eq, quantizeT_eq]
   simp only [quantizedPhase, Num.pow2, num_two, num_pi, num_ofNat, Nat.cast_pow, Nat.cast_ofNat]
+
+end Odak
+
+/-! ## The BODIES of the hologram routines REGENERATED from the Python source (`Generated/Holograms.lean`; translator
+  `harness/translate/holograms.py`; tied to the model by `Lemmas/GenHolograms.lean`).  `prop z R C u` stands for
+  `propagate_beam(u, k, z, dx, wavelength, propagation_type)` of an `R x C` field with the routine's own settings and is ARBITRARY in every
+  statement below. -/
+namespace Odak
+open Odak.Gen Odak.Holo
+
+/-- generated torch `gerchberg_saxton`, every iteration count `≥ 1`, every field, any propagation operator: the returned reconstruction is
+    the forward propagation (`+distance`) of the RETURNED hologram, and the returned hologram is a backward propagation (`-distance`) -/
+theorem C07_gen_gs_returns_true_reconstruction {α : Type} [Num α] (prop : Prop' α) (n m : Nat) (field : Fld (Cx α)) (it : Nat)
+    (hit : 1 ≤ it) (distance : α) :
+    (gsTorchT prop n m field it distance).2 = prop distance n m (gsTorchT prop n m field it distance).1 ∧
+    ∃ r : Fld (Cx α), (gsTorchT prop n m field it distance).1 = prop (-distance) n m r := by
+  obtain ⟨k, rfl⟩ : ∃ k, it = k + 1 := ⟨it - 1, by omega⟩
+  rw [gsTorchT_eq]
+  refine ⟨C07_gs_returns_true_reconstruction _ _ _ _ _, ?_⟩
+  exact C07_gs_hologram_is_last_backpropagation (prop distance n m) (prop (-distance) n m) (Fld.zip setAmplitudeT) field (k + 1) field
+    (by omega)
+
+/-- generated NumPy `gerchberg_saxton` (`initial_phase = None`; even sides `2a x 2b`, the sizes the routine accepts - finding F30; every
+    iteration count `≥ 1`, any propagation operator, any random start phase): every sample of the returned hologram has UNIT AMPLITUDE -/
+theorem C07_gen_gs_numpy_unit_amplitude (prop : Prop' ℝ) (a b : Nat) (field : Fld (Cx ℝ)) (it : Nat) (hit : 1 ≤ it) (distance : ℝ)
+    (randomPhase : Fld ℝ) (i j : Nat) (hi : i < 2 * a) (hj : j < 2 * b) :
+    calcAmplitude ((gsNumpyN prop (2 * a) (2 * b) field it distance randomPhase).1.el i j) = 1 := by
+  obtain ⟨k, rfl⟩ : ∃ k, it = k + 1 := ⟨it - 1, by omega⟩
+  rw [gsNumpyN_eq]
+  obtain ⟨φ, hφ⟩ := (gsNumpy_returns prop a b field k distance randomPhase).1 i j hi hj
+  rw [hφ]
+  simp [calcAmplitude, genField, abs_polar]
+
+/-- ... and the returned reconstruction is exactly the returned hologram zero-padded, propagated forward (`+distance`) and cut to the
+    window `center ± orig_shape` - the same operations the loop applies -/
+theorem C07_gen_gs_numpy_returns_true_reconstruction {α : Type} [Num α] (prop : Prop' α) (a b : Nat) (field : Fld (Cx α)) (it : Nat)
+    (hit : 1 ≤ it) (distance : α) (randomPhase : Fld α) :
+    (gsNumpyN prop (2 * a) (2 * b) field it distance randomPhase).2 =
+      gsWindow (2 * a) (2 * b) 0 (prop distance (gsPadRows (2 * a) (2 * b)) (gsPadCols (2 * a) (2 * b))
+        (Fld.npZeroPad (2 * a) (2 * b) 0 (gsNumpyN prop (2 * a) (2 * b) field it distance randomPhase).1)) := by
+  obtain ⟨k, rfl⟩ : ∃ k, it = k + 1 := ⟨it - 1, by omega⟩
+  rw [gsNumpyN_eq]
+  exact (gsNumpy_returns prop a b field k distance randomPhase).2
+
+/-- generated `shift_w_double_phase`: the global phase factor `cos θ + i sin θ`, `θ = -2π · depth_shift / wavelength`, has modulus one for depth
+    shifts of EITHER SIGN and every wavelength, so multiplying by it leaves the amplitude of every sample of the propagated field unchanged
+    (nothing can overflow in this stage) -/
+theorem C07_gen_shift_factor_unit (prop : Prop' ℝ) (n m : Nat) (phase : Fld ℝ) (d lam : ℝ) (i j : Nat) :
+    Cx.normSq ((shiftedField prop n m phase d lam).el i j) =
+      Cx.normSq ((Fld.torchCropCenter (Fld.torchZeroPadRows n m) (Fld.torchZeroPadCols n m) 0
+        (prop d (Fld.torchZeroPadRows n m) (Fld.torchZeroPadCols n m)
+          (Fld.torchZeroPad n m 0 (Fld.zip genField (Fld.const (Num.ofNat 1)) phase)))).el i j) := by
+  have hm : ∀ x y : Cx ℝ, Cx.normSq (x * y) = Cx.normSq x * Cx.normSq y := by
+    intro x y; simp only [Cx.normSq, Cx.mul_re', Cx.mul_im']; ring
+  simp only [shiftedField, Fld.map, hm, C07_shift_factor_unit, mul_one]
+
+/-- generated `shift_w_double_phase` (both variants: without and with the blur), every phase map, depth shift of either sign, any
+    propagation operator: EVERY pixel `(i, j)` of the returned phase-only hologram comes from exactly ONE of the two phase maps -
+    `phase - offset` where `checkerLow i j` (both indices even or both odd), `phase + offset` elsewhere - and, when the maximum amplitude is
+    positive (GUARD: the shifted field is not identically zero; otherwise the source divides 0 by 0), the `arccos` argument `a / amax` of
+    every pixel inside the array lies in `[0, 1]`, so the offset is a real number in `[0, π/2]` -/
+theorem C07_gen_double_phase_pixel (prop : Prop' ℝ) (n m : Nat) (phase : Fld ℝ) (d lam : ℝ) (L : Nat) (sigma : ℝ) :
+    ∀ out ∈ [(shiftWDoublePhaseNoBlurT prop n m phase d lam L sigma, shiftedField prop n m phase d lam),
+             (shiftWDoublePhaseT prop n m phase d lam L sigma,
+               blurredField (dpRows n m) (dpCols n m) L sigma (shiftedField prop n m phase d lam))],
+      ∀ i j : Nat,
+        let amax := Fld.gridMax (dpRows n m) (dpCols n m) (Fld.map calcAmplitude out.2)
+        let pz := calcPhase (out.2.el i j) - Fld.gridMean (dpRows n m) (dpCols n m) (Fld.map calcPhase out.2)
+        let off := doublePhaseOffset (calcAmplitude (out.2.el i j)) amax
+        out.1.el i j = (if checkerLow i j then pz - off else pz + off) ∧
+        (0 < amax → i < dpRows n m → j < dpCols n m →
+          0 ≤ calcAmplitude (out.2.el i j) / amax ∧ calcAmplitude (out.2.el i j) / amax ≤ 1 ∧ 0 ≤ off ∧ off ≤ Real.pi / 2) := by
+  intro out hout i j
+  have key : ∀ u : Fld (Cx ℝ), ∀ i j, 0 < Fld.gridMax (dpRows n m) (dpCols n m) (Fld.map calcAmplitude u) →
+      i < dpRows n m → j < dpCols n m →
+      0 ≤ calcAmplitude (u.el i j) / Fld.gridMax (dpRows n m) (dpCols n m) (Fld.map calcAmplitude u) ∧
+      calcAmplitude (u.el i j) / Fld.gridMax (dpRows n m) (dpCols n m) (Fld.map calcAmplitude u) ≤ 1 ∧
+      0 ≤ doublePhaseOffset (calcAmplitude (u.el i j)) (Fld.gridMax (dpRows n m) (dpCols n m) (Fld.map calcAmplitude u)) ∧
+      doublePhaseOffset (calcAmplitude (u.el i j)) (Fld.gridMax (dpRows n m) (dpCols n m) (Fld.map calcAmplitude u)) ≤ Real.pi / 2 := by
+    intro u i j hpos hi hj
+    have h0 : 0 ≤ calcAmplitude (u.el i j) := by
+      simp only [calcAmplitude, Cx.abs, num_sqrt]; exact Real.sqrt_nonneg _
+    have h1 := le_gridMax (dpRows n m) (dpCols n m) (Fld.map calcAmplitude u) i j hi hj
+    exact C07_double_phase_offset_defined _ _ h0 h1 hpos
+  rcases List.mem_cons.mp hout with h | h
+  · subst h
+    refine ⟨?_, key _ i j⟩
+    rw [shiftWDoublePhaseNoBlurT_eq]; rfl
+  · rw [List.mem_singleton.mp h]
+    refine ⟨?_, key _ i j⟩
+    rw [shiftWDoublePhaseT_eq]; rfl
+
+/-- ... and the array the double-phase stage works on, `crop_center(propagate(zero_pad(.)))`, has the resolution of the input phase map, for
+    even AND odd sides (C08 on the regenerated index expressions) -/
+theorem C07_gen_double_phase_resolution (n m : Nat) : dpRows n m = n ∧ dpCols n m = m := by
+  constructor
+  · simp only [dpRows, Fld.torchCropCenterRows, Fld.torchZeroPadRows, Fld.torchZeroPadCols, Index.torchPad, Index.storeAxis,
+      Index.torchCrop, Index.loadAxis, Index.pySliceBounds, torchPadDef_res0, torchPadDef_res1, torchCropDef_lo0, torchCropDef_hi0]
+    split_ifs <;> omega
+  · simp only [dpCols, Fld.torchCropCenterCols, Fld.torchZeroPadRows, Fld.torchZeroPadCols, Index.torchPad, Index.storeAxis,
+      Index.torchCrop, Index.loadAxis, Index.pySliceBounds, torchPadDef_res0, torchPadDef_res1, torchCropDef_lo1, torchCropDef_hi1]
+    split_ifs <;> omega
 
 end Odak
